@@ -57,6 +57,13 @@ def eval_in(store, x, fn=None, call_eval=None, depth=0):
         return None
     if k == "un":
         if x["op"] in ("post++", "post--", "pre++", "pre--"):
+            t = lv(x["e"])
+            if t in store:  # the element has been applied: store holds the post-state
+                if x["op"] == "post++":
+                    return store[t] - 1
+                if x["op"] == "post--":
+                    return store[t] + 1
+                return store[t]
             return None
         e = eval_in(store, x["e"], fn, call_eval, depth + 1)
         if e is None:
@@ -67,7 +74,13 @@ def eval_in(store, x, fn=None, call_eval=None, depth=0):
         if op == ",":
             return eval_in(store, x["r"], fn, call_eval, depth + 1)
         if op == "=":
+            t = lv(x["l"])
+            if t in store:
+                return store[t]
             return eval_in(store, x["r"], fn, call_eval, depth + 1)
+        if op in ("+=", "-=", "*=", "/=", "%=", "<<=", ">>=", "&=", "|=", "^="):
+            t = lv(x["l"])
+            return store.get(t)  # post-state of the target (None if unknown)
         l = eval_in(store, x["l"], fn, call_eval, depth + 1)
         if op == "&&":
             if l is not None and not l:
@@ -109,7 +122,7 @@ def eval_in(store, x, fn=None, call_eval=None, depth=0):
 
 
 class AbsWalk:
-    def __init__(self, fn, tracked, init=None, effect=None, call_eval=None, assume=None, max_states=200000):
+    def __init__(self, fn, tracked, init=None, effect=None, call_eval=None, assume=None, max_states=200000, widen=4096):
         """tracked: set of lvalue texts whose constant values are followed.
         effect(b, i, x, store) -> None | dict of ghost updates (value None removes); x is the
         element with references to earlier elements left in place, so every call is seen once.
@@ -123,6 +136,7 @@ class AbsWalk:
         self.call_eval = call_eval
         self.assume = assume
         self.max_states = max_states
+        self.widen = widen
         self.exit_stores = []
         self.visited = set()
         self.forks = 0
@@ -161,11 +175,22 @@ class AbsWalk:
                     store.pop(k, None)
                 if v is not None:
                     store[t] = v
-            elif n.get("k") == "bin" and t in self.tracked and t in store and n["op"] in ("+=", "-=", "|=", "&="):
+            elif n.get("k") == "bin" and t in self.tracked and t in store and n["op"] in ("+=", "-=", "|=", "&=", "<<=", ">>=", "^=", "*="):
                 r = eval_in(store, n["r"], self.fn, self.call_eval)
                 cur = store.pop(t)
                 if r is not None:
-                    store[t] = {"+=": cur + r, "-=": cur - r, "|=": cur | r, "&=": cur & r}[n["op"]]
+                    try:
+                        val = {"+=": lambda: cur + r, "-=": lambda: cur - r, "|=": lambda: cur | r, "&=": lambda: cur & r,
+                               "<<=": lambda: cur << r, ">>=": lambda: cur >> r, "^=": lambda: cur ^ r, "*=": lambda: cur * r}[n["op"]]()
+                    except Exception:
+                        val = None
+                    if val is not None:
+                        w_ = n.get("w")
+                        if w_:
+                            val &= (1 << w_) - 1
+                            if n.get("s") and val >= (1 << (w_ - 1)):
+                                val -= 1 << w_
+                        store[t] = val
             elif n.get("k") == "un" and t in self.tracked and t in store:
                 store[t] = store[t] + (1 if "++" in n["op"] else -1)
             else:
@@ -211,6 +236,10 @@ class AbsWalk:
             store = dict(store)
             for i, e in enumerate(blk.elems):
                 self._apply(b, i, e["x"], store)
+            # widening: a counter that runs away is dropped to unknown so that the state space stays finite
+            for k_ in [k_ for k_, v_ in store.items() if isinstance(v_, int) and not k_.startswith("$") and abs(v_) > self.widen]:
+                if abs(store[k_]) < 10 ** 8:
+                    del store[k_]
             if b == cfg.exit:
                 self.exit_stores.append(store)
                 if on_exit:
